@@ -164,16 +164,23 @@ def deductive(rep: Report, tier):
 
 
 # ---------------------------------------------------------------------------------------------------
-def check_pi(A4, lam, seed, hermitian=True):
+def check_pi(A4, lam, seed, hermitian=True, budget=3000, tol=1e-13):
     """lam: prescribed real spectrum (dominant first in modulus) or None for arbitrary input."""
     from .. import runtime as rt
     u = rt.real().utils
     n = A4.shape[0]
     np.random.seed(seed)
-    v, est = u.power_iteration(rt.q_from4(A4), max_iterations=3000, tol=1e-13, return_eigenvalue=True)
+    v, est = u.power_iteration(rt.q_from4(A4), max_iterations=budget, tol=tol, return_eigenvalue=True)
     v4 = rt.q_to4(v).reshape(n, 1, 4)
     if abs(rt.fro(v4) - 1.0) > 1e-10:
         return {"what": "returned vector is not of unit norm", "norm": rt.fro(v4)}
+    np.random.seed(seed)
+    v_only = u.power_iteration(rt.q_from4(A4), max_iterations=budget, tol=tol)
+    if not np.array_equal(rt.q_to4(v_only).reshape(n, 1, 4), v4):
+        return {"what": "vector differs between return_eigenvalue=True and False under the same seed"}
+    ray = rt.fro(rt.qmm(rt.qH(v4), rt.qmm(A4, v4))) / rt.fro(rt.qmm(rt.qH(v4), v4))
+    if abs(est - ray) > 1e-10 * max(1.0, ray):
+        return {"what": "returned eigenvalue is not the modulus of the Rayleigh quotient of the returned vector", "returned": est, "rayleigh": ray}
     s2 = float(rt.singular_values(A4)[0]) if n else 0.0
     if est > s2 * (1 + 1e-9) + 1e-12:
         return {"what": "eigenvalue estimate exceeds the spectral norm", "estimate": est, "norm2": s2}
@@ -189,17 +196,18 @@ def check_pi(A4, lam, seed, hermitian=True):
     return None
 
 
-def check_nh(A4, seed, hermitian):
+def check_nh(A4, seed, hermitian, **opts):
     from .. import runtime as rt
     u = rt.real().utils
     n = A4.shape[0]
     np.random.seed(seed)
-    q, lam, res = u.power_iteration_nonhermitian(rt.q_from4(A4), max_iterations=2000, seed=seed)
+    q, lam, res = u.power_iteration_nonhermitian(rt.q_from4(A4), max_iterations=opts.pop("budget", 2000), seed=seed, **opts)
     q4 = rt.q_to4(q).reshape(n, 1, 4)
     if abs(rt.fro(q4) - 1.0) > 1e-9:
         return {"what": "complex-adjoint variant: vector not of unit norm", "norm": rt.fro(q4)}
-    if hermitian and abs(complex(lam).imag) != 0.0:
-        return {"what": "Hermitian input but eigenvalue not real", "lam": complex(lam)}
+    lc = complex(lam) if not hasattr(lam, "w") else complex(lam.w, lam.x)
+    if hermitian and (abs(lc.imag) != 0.0 or (hasattr(lam, "w") and (lam.y != 0.0 or lam.z != 0.0))):
+        return {"what": "Hermitian input but eigenvalue not real", "lam": str(lam)}
     return None
 
 
@@ -235,8 +243,11 @@ def bounded(rep: Report, tier, seed):
                         continue
                     b.case(f"{P}.bounded.power_iteration", (n, sign, gap, sd), lambda A4=A4, lam=lam, sd=sd: check_pi(A4, lam, sd), f"power iteration n={n} dominant {sign * 4.0} gap {gap} seed {sd}",
                            facts={"n": n, "dominant_sign": sign, "gap": gap}, inputs={"A": A4, "spectrum": lam, "seed": sd})
-                    b.case(f"{P}.bounded.nonhermitian_variant", (n, sign, gap, sd, "h"), lambda A4=A4, sd=sd: check_nh(A4, sd, True), f"complex-adjoint variant on Hermitian n={n}",
+                    b.case(f"{P}.bounded.nonhermitian_variant", (n, sign, gap, sd, "h"), lambda A4=A4, sd=sd: check_nh(A4, sd, True) or check_nh(A4, sd, True, eigenvalue_format="quaternion", block_purify=False), f"complex-adjoint variant on Hermitian n={n}",
                            inputs={"A": A4, "seed": sd})
+                    if sd == seed:
+                        b.case(f"{P}.bounded.power_iteration_budget", (n, sign, gap, "budget"), lambda A4=A4, sd=sd: check_pi(A4, None, sd, budget=3) or check_pi(A4, None, sd, budget=100, tol=1e-10),
+                               f"short budgets / default tolerance n={n}", inputs={"A": A4, "seed": sd})
     b.samples.append({"n": 4, "spectrum": [-4.0, 3.2, -2.88, 2.56], "check": "A v = lambda v with lambda = -4"})
     b.done()
     b2 = rep.add_bounded(Bounded("arbitrary_input", "non-Hermitian Gaussian / integer / nilpotent / zero matrices n <= 5", "unit vector and estimate <= ||A||_2; complex-adjoint variant unit"))
@@ -249,9 +260,13 @@ def bounded(rep: Report, tier, seed):
                     A4[i, i + 1, 0] = 1.0
             if kind == "zero":
                 A4 = np.zeros((n, n, 4))
-            b2.case(f"{P}.bounded.arbitrary", (n, kind), lambda A4=A4: check_pi(A4, None, seed, hermitian=False), f"power iteration on a {n}x{n} {kind} matrix", inputs={"A": A4})
+            for budget in (0, 1, 2, 7, 3000):
+                b2.case(f"{P}.bounded.arbitrary", (n, kind, budget), lambda A4=A4, budget=budget: check_pi(A4, None, seed, hermitian=False, budget=budget, tol=1e-10 if budget == 7 else 1e-13),
+                        f"power iteration on a {n}x{n} {kind} matrix, budget {budget}", inputs={"A": A4, "budget": budget})
             if kind in ("gauss", "int"):
-                b2.case(f"{P}.bounded.arbitrary_nh", (n, kind, "nh"), lambda A4=A4: check_nh(A4, seed, False), f"complex-adjoint variant on a {n}x{n} {kind} matrix", inputs={"A": A4})
+                for opts in ({}, {"block_purify": False}, {"eigenvalue_format": "quaternion"}, {"block_purify": False, "budget": 3}, {"res_tol": None}):
+                    b2.case(f"{P}.bounded.arbitrary_nh", (n, kind, "nh", tuple(sorted(opts.items()))), lambda A4=A4, opts=opts: check_nh(A4, seed, False, **dict(opts)),
+                            f"complex-adjoint variant on a {n}x{n} {kind} matrix {opts}", inputs={"A": A4, "options": {k: str(v) for k, v in opts.items()}})
     b2.samples.append({"n": 3, "kind": "nilpotent"})
     b2.done()
 
